@@ -11,8 +11,9 @@ def Core.init (name : Chain) : Core :=
     relayers := fun _ => [], authority := "gov", now := 0, evlog := [], sent := [], ackLog := [] }
 
 def State.init (name : Chain) : State :=
-  { core := Core.init name, nft := NftMod.empty, nftTraces := fun _ => none,
-    mt := MtMod.empty, mtTraces := fun _ => none, cbLog := [] }
+  { core := Core.init name,
+    apps := { nft := NftMod.empty, nftTraces := fun _ => none, mt := MtMod.empty, mtTraces := fun _ => none },
+    cbLog := [] }
 
 def World.init : World := fun c => State.init c
 
@@ -69,48 +70,48 @@ def userTx (s : State) (r : State × Res) : State × Res :=
 def nftIssueMsg (s : State) (sender : Addr) (cls : Str) (mr : Bool) : State × Res :=
   if !nftDenomIdOk cls then (s, .err (.app "nft/16"))
   else if nftKeyword cls then (s, .err (.app "nft/16"))
-  else userTx s (liftNft s (s.nft.issueDenom cls sender mr))
+  else userTx s (liftApps s (liftNft s.apps (s.apps.nft.issueDenom cls sender mr)))
 
 def nftMintMsg (s : State) (sender : Addr) (cls id : Str) (uri : String) (rcpt : Addr) : State × Res :=
   if hasPrefix "ibc/".toList cls then (s, .err (.app "sdk/18"))
   else if !nftDenomIdOk cls then (s, .err (.app "nft/16"))
   else if !nftIdOk id then (s, .err (.app "nft/16"))
-  else match s.nft.denom cls with
+  else match s.apps.nft.denom cls with
     | none => (s, .err (.app "nft/16"))
     | some d =>
       if d.mintRestricted && d.creator != sender then (s, .err .unauthorized)
-      else userTx s (liftNft s (s.nft.mint cls id uri rcpt))
+      else userTx s (liftApps s (liftNft s.apps (s.apps.nft.mint cls id uri rcpt)))
 
 def nftSendMsg (s : State) (sender : Addr) (cls id : Str) (rcpt : Addr) : State × Res :=
   if !nftDenomIdOk cls then (s, .err (.app "nft/16"))
   else if !nftIdOk id then (s, .err (.app "nft/16"))
-  else userTx s (liftNft s (s.nft.transferOwner cls id sender rcpt))
+  else userTx s (liftApps s (liftNft s.apps (s.apps.nft.transferOwner cls id sender rcpt)))
 
 def nftBurnMsg (s : State) (sender : Addr) (cls id : Str) : State × Res :=
   if !nftDenomIdOk cls then (s, .err (.app "nft/16"))
   else if !nftIdOk id then (s, .err (.app "nft/16"))
-  else userTx s (liftNft s (s.nft.burn cls id sender))
+  else userTx s (liftApps s (liftNft s.apps (s.apps.nft.burn cls id sender)))
 
 def mtIssueMsg (s : State) (sender : Addr) (cls : Str) : State × Res :=
-  ({ s with mt := s.mt.issueDenom cls sender }, .ok)
+  ({ s with apps := { s.apps with mt := s.apps.mt.issueDenom cls sender } }, .ok)
 
 def mtMintMsg (s : State) (sender : Addr) (cls id : Str) (fresh : Bool) (amt : Nat) (rcpt : Addr) : State × Res :=
   if amt == 0 then (s, .err (.app "sdk/18"))
-  else match s.mt.denom cls with
+  else match s.apps.mt.denom cls with
     | none => (s, .err (.app "sdk/38"))                      -- ErrNotFound
     | some o =>
       if o != sender then (s, .err .unauthorized)
-      else if fresh then userTx s (liftMt s (s.mt.issueMT cls id amt rcpt))
-      else if !s.mt.exists_ (cls, id) then (s, .err (.app "sdk/38"))
-      else userTx s (liftMt s (s.mt.mintMT cls id amt rcpt))
+      else if fresh then userTx s (liftApps s (liftMt s.apps (s.apps.mt.issueMT cls id amt rcpt)))
+      else if !s.apps.mt.exists_ (cls, id) then (s, .err (.app "sdk/38"))
+      else userTx s (liftApps s (liftMt s.apps (s.apps.mt.mintMT cls id amt rcpt)))
 
 def mtSendMsg (s : State) (sender : Addr) (cls id : Str) (amt : Nat) (rcpt : Addr) : State × Res :=
   if amt == 0 then (s, .err (.app "sdk/18"))
-  else userTx s (liftMt s (s.mt.transferOwner cls id amt sender rcpt))
+  else userTx s (liftApps s (liftMt s.apps (s.apps.mt.transferOwner cls id amt sender rcpt)))
 
 def mtBurnMsg (s : State) (sender : Addr) (cls id : Str) (amt : Nat) : State × Res :=
   if amt == 0 then (s, .err (.app "sdk/18"))
-  else userTx s (liftMt s (s.mt.burn cls id amt sender))
+  else userTx s (liftApps s (liftMt s.apps (s.apps.mt.burn cls id amt sender)))
 
 section
 variable (H : Data → Digest) (Hc : Str → Str)
